@@ -102,7 +102,8 @@ def population():
     objs.append(v21.Identity(id=ID('identity', 1), name='alpha2', identity_class='individual', created='2020-01-01T00:00:00Z', modified='2020-01-02T00:00:00.5Z', labels=['b']))
     objs.append(v21.Identity(id=ID('identity', 2), name='beta', created='2020-01-03T00:00:00Z', modified='2020-01-03T00:00:00Z',
                              external_references=[{'source_name': 'src', 'external_id': 'e1'}, {'source_name': 'other', 'url': 'http://x'}]))
-    objs.append(v21.Tool(id=ID('tool', 3), name='gamma', created='2020-01-01T00:00:00Z', modified='2020-01-04T00:00:00Z', labels=['a'], tool_types=['exploitation']))
+    objs.append(v21.Tool(id=ID('tool', 3), name='gamma', created='2020-01-01T00:00:00Z', modified='2020-01-04T00:00:00Z', labels=['a'], tool_types=['exploitation'], confidence=0, revoked=False))
+    objs.append(v21.Tool(id=ID('tool', 9), name='', created='2020-01-01T00:00:00Z', modified='2020-01-04T00:00:00Z', confidence=50, revoked=True, aliases=[]))
     objs.append(v21.Malware(id=ID('malware', 4), name='delta', is_family=False, created='2020-01-02T00:00:00.000001Z', modified='2020-01-02T00:00:00.000001Z'))
     objs.append(v21.Relationship(id=ID('relationship', 5), source_ref=ID('identity', 1), target_ref=ID('tool', 3), relationship_type='uses',
                                  created='2020-01-05T00:00:00Z', modified='2020-01-05T00:00:00Z'))
@@ -126,6 +127,8 @@ def filter_pool():
             F('modified', '>=', '2020-01-02T00:00:00.5Z'), F('modified', '<', '2020-01-02T00:00:00.500001Z'), F('created', '>', dtm.datetime(2020, 1, 2, tzinfo=dtm.timezone.utc)),
             F('created', '<', '2020-01-07T00:00:00.1235Z'), F('created', '=', '2020-01-07T00:00:00.1234Z'), F('modified', '>=', '2020-01-07T00:00:00.123001Z'), F('modified', '!=', '2020-01-07T00:00:00.12309Z'),
             F('created', '=', '2020-01-07T00:00:00.123000Z'), F('modified', '<=', '2020-01-06T23:59:59.9999Z'),
+            F('confidence', '=', 0), F('confidence', '>', 10), F('confidence', '<=', 0), F('confidence', 'in', [0, 50]), F('confidence', '!=', 50), F('confidence', '>=', 50.0),
+            F('revoked', '=', False), F('revoked', '!=', False), F('revoked', 'in', [True]), F('name', '=', ''), F('name', '!=', ''), F('name', 'in', ''), F('aliases', '=', 'x'), F('aliases', '!=', 'x'),
             F('labels', '=', 'a'), F('labels', 'contains', 'a'), F('labels', 'in', ['b', 'z']), F('labels', '!=', 'a'),
             F('external_references.source_name', '=', 'src'), F('external_references.external_id', '=', 'e1'), F('external_references.url', '!=', 'zzz'),
             F('hashes.MD5', '=', 'a' * 32), F('source_ref', '=', ID('identity', 1)), F('relationship_type', 'in', ['uses', 'x']), F('nonexistent', '=', 1), F('is_family', '=', False)]
